@@ -45,7 +45,7 @@ SeedState(sd) ==
 C0 == [modules |-> <<>>, lockAfter |-> 2, lockWindow |-> 2, lockDuration |-> 2, expireAfter |-> 2,
        recoverTTL |-> 2, recoverLogin |-> FALSE, emailAuth |-> FALSE, totpOneTime |-> FALSE,
        whitelist |-> <<>>, logoutMethod |-> "DELETE", mwReqs |-> 0, mwFail |-> "404",
-       errWrites |-> FALSE, json |-> FALSE, mailGo |-> FALSE, foldPid |-> FALSE, regNoWhitelist |-> FALSE]
+       errWrites |-> FALSE, json |-> FALSE, mailGo |-> FALSE, foldPid |-> FALSE, regNoWhitelist |-> FALSE, appHandles2FA |-> FALSE]
 
 Seed2 == <<S0("u1", 1, TRUE), S0("u2", 2, TRUE)>>
 SeedUnconf == <<S0("u1", 1, TRUE), S0("u2", 2, FALSE)>>
@@ -89,7 +89,7 @@ Worlds ==
             seed |-> << [S0("u1", 1, TRUE) EXCEPT !.sms = 1, !.rc = TRUE],
                         [S0("u2", 2, TRUE) EXCEPT !.sms = 2] >>] }
     [] Family = "tfasetup" ->    \* enrolment / removal / regeneration, with and without e-mail authorisation
-         { [cfg |-> [C0 EXCEPT !.modules = m, !.emailAuth = ea], seed |-> Seed2] :
+         { [cfg |-> [C0 EXCEPT !.modules = m, !.emailAuth = ea, !.appHandles2FA = ea], seed |-> Seed2] :
              m \in { <<"auth", "totp", "sms", "recovery", "logout">>,
                      <<"auth", "remember", "totp", "sms", "recovery", "logout">> },
              ea \in BOOLEAN }
@@ -213,6 +213,7 @@ Events(S, c) ==
                   b \in Browsers, p \in {"pa", "pb"}, t \in {-1} \cup 1..S.iss["os"],
                   o \in {"x", "y", "error", "exchangeFail"} }
          \cup ProbeLogout(c)
+         \cup { [Ev("LoginPost", "b1") EXCEPT !.pid = p, !.pw = -1] : p \in {"o_pa_x", "u1"} }
          \cup (IF Has(c, "lock") THEN Admin({"AdminLock"}, {"o_pa_x"}) ELSE {})
 
 -----------------------------------------------------------------------------
